@@ -136,6 +136,10 @@ class DULServiceProvider(Thread):
         pdu_cls, event = _PDU_TYPES[b[0:1]]
         pdu = pdu_cls()
         pdu.decode(b)
+        # A PDU that can't be converted to its service primitive is invalid,
+        #   raise here so its treated as such rather than failing in the
+        #   state machine's action
+        pdu.to_primitive()
 
         evt.trigger(self.assoc, evt.EVT_PDU_RECV, {"pdu": pdu})
 
